@@ -31,6 +31,9 @@ CHECKS = {
  "C10": ("exploration", "runtime monitoring: outcome-table oracle and tag echo over accepted pairs for seeded concurrent connect/accept/reject/drop/cancel histories; wire monitor W5/W6; sent-ordering probe",
          "Held on N seeded executions: each tagged port-open request resolved by quiescence with the class the listener's recorded action implies, accepted pairs echoed the right tags on both sides, no request was seen twice, exhaustion errors were truthful, unanswered OpenPort never exceeded the advertised queue, and a request reported as sent was visible to the listener before later data arrived.",
          "the configured default Cfg::ports_exhausted is read by no code path of this tree; requests are judged by the wait flag they ran with", "DESIGN.md §3 C10", "simnet+wiremon+history"),
+ "C08": ("exploration", "runtime monitoring: grammar-based hostile-peer fuzzing (harness speaks the protocol) with panic hook, pending-operation registry, echo probe and counting-allocator memory oracle",
+         "Held on N generated frame sequences (valid prefix + 1-6 hostile steps of 30 kinds, hostile handshakes, hostile stream length prefixes): no panic, every local user saw an error by quiescence whenever the dispatcher terminated, surviving endpoints still served a fresh open+echo, emitted frames stayed decodable, and heap growth between N and 4N flood frames of six classes stayed constant-bounded - except the recorded known finding (zero-port PortData).",
+         "peer keeps reading; heap measured at quiescence by a counting allocator; sampling of frame sequences, not all sequences", "DESIGN.md §3 C08", "peer+refcodec+mem"),
 }
 
 NOT_YET = "check not yet implemented in this commit (DESIGN.md §6a gives the order of implementation)"
